@@ -29,6 +29,7 @@ func (r Res) String() string { return [...]string{"unsat", "sat", "unknown"}[r] 
 type SolverStats struct {
 	Queries, Sat, Unsat, Unknown int
 	Errors                       int
+	Retries                      int // queries repeated in a fresh solver process after a watchdog kill
 	Dur                          time.Duration
 	MaxQuery                     time.Duration
 	Restarts                     int
@@ -227,6 +228,23 @@ func (s *Solver) readSexp() (string, error) {
 // answer is sat, the model restricted to the variables occurring in assertions and
 // wantModel is returned.
 func (s *Solver) Check(assertions []*Term, wantModel bool, extraVars []*Term) (Res, Model) {
+	full := s.TimeoutMs
+	if first := full / 3; first >= 10000 && s.cmd != nil {
+		s.TimeoutMs = first // a live session gets a third of the budget, the fresh retry all of it
+	}
+	r, m := s.check1(assertions, wantModel, extraVars)
+	s.TimeoutMs = full
+	if r == Unknown && s.cmd == nil {
+		// the watchdog killed the solver. A long-lived incremental session was observed to stall on
+		// goals a fresh process decides in seconds: ask once more in a fresh process, which receives
+		// only the definitions this query needs. Still unknown after that = undecided.
+		s.Stats.Retries++
+		r, m = s.check1(assertions, wantModel, extraVars)
+	}
+	return r, m
+}
+
+func (s *Solver) check1(assertions []*Term, wantModel bool, extraVars []*Term) (Res, Model) {
 	for _, a := range assertions {
 		if a.Op == OConst && a.C == 0 {
 			return Unsat, nil
